@@ -75,7 +75,7 @@ def same_behaviour(src1: str, src2: str) -> bool:
 
 def place_of(v: Dict[str, Any]) -> Any:
     d = v.get("detail", {})
-    return (d.get("block"), d.get("field"), d.get("detector"), d.get("txn"))
+    return (d.get("block"), d.get("field"), d.get("detector"), d.get("txn"), d.get("position"), d.get("line"))
 
 
 def by_repair(
@@ -238,7 +238,24 @@ def _relax_oracle(name: str) -> Callable[[], Any]:
     return mk
 
 
+def _patch_frame_bury() -> Any:
+    import contextlib  # pylint: disable=import-outside-toplevel
+    from tealer.teal.instructions import instructions as ins_mod  # pylint: disable=import-outside-toplevel
+
+    @contextlib.contextmanager
+    def cm() -> Any:
+        orig = ins_mod.FrameBury.stack_push_size
+        ins_mod.FrameBury.stack_push_size = property(lambda self: 0)  # type: ignore
+        try:
+            yield
+        finally:
+            ins_mod.FrameBury.stack_push_size = orig  # type: ignore
+
+    return cm()
+
+
 PATCHES: Dict[str, Callable[[], Any]] = {
+    "frame-bury-pushes-nothing": _patch_frame_bury,
     "oracle:fee-upper-bounds-only": _relax_oracle("fee-upper-bounds-only"),
     "appid-partition": _patch_appid_partition,
     "kind-partitions": _patch_kind_partitions,
